@@ -47,7 +47,7 @@ META = dict(
                   "obligations to 'every destination is reached exactly once'"],
     assumptions=["selection of remote_dep_mpi_pack_dep (output k's payload is packed for peer p <=> k in outgoing_mask and p in rank_bits[k]) "
                  "is READ from remote_dep_mpi.c:1397-1399 and used as spec_packed in the lemma; it is not discharged against the code here",
-                 "a destination set contains only remote processes (parsec_release_dep_fct records dst_rank != src_rank) and is non-empty "
+                 "on the ROOT a destination set contains only remote processes (parsec_release_dep_fct records dst_rank != src_rank); on a forwarder the root's own position may be present (rebuilt by parsec_gather_collective_pattern for successors living on the root; symbolic in the activate jobs and in the lemma); every output of the mask has at least one remote consumer "
                  "for every output of the mask; count_bits equals the set's cardinality on entry (kept by h_gather's contract)",
                  "pending_ack is 0 when the root starts activate and >= 1 at a forwarder (unit taken by remote_dep_release_incoming); "
                  "concurrent completion of sends by the communication thread while activate is still running is not modelled "
@@ -127,10 +127,6 @@ def jobs(tier):
                      solver="kissat" if n >= 6 else None, timeout=1500 if n >= 7 else 600, mem_gb=4,
                      bounded=None if full else "quick tier: np = 4 only",
                      functions=[ACT], min_obligations=18))
-    if os.environ.get("C13_SKIP_FINDING"):
-        # only for running ./lib/selftest.py before the finding is registered in known_findings.json: without it the
-        # two failing jobs make every patch count as trivially detected
-        J = [j for j in J if j.name not in ("lemma.payload.chain", "lemma.payload.binomial")]
     return J
 
 
